@@ -115,11 +115,12 @@ class Ctx:
 class Env:
     _n = 0
 
-    def __init__(self, body, args=None, depth=0, caps=None):
+    def __init__(self, body, args=None, depth=0, caps=None, path=()):
         self.body = body
         self.args = args or {}
         self.depth = depth
         self.caps = caps
+        self.path = path   # call path ((caller body key, block), ...) of this inlined instance: makes call sites deterministic
         Env._n += 1
         self.id = Env._n
         self.memo = {}
@@ -153,6 +154,12 @@ def variant_of(t, names=None):
     if v is not None and names is not None and v not in names:
         return None
     return v
+
+
+def site_path(site):
+    """call path of code inlined at `site`"""
+    p = site[2] if len(site) > 2 and isinstance(site[2], tuple) else ()
+    return p + ((site[0], site[1]),)
 
 
 def is_prefix(a, b):
@@ -581,7 +588,7 @@ class Eval:
         t = body.blocks[b]["term"]
         point = (b, None)
         args = [self.operand(env, a, point) for a in t["args"]]
-        site = (body.key, b, env.id if env.depth > 0 else 0)
+        site = (body.key, b, env.path)
         if "fn" not in t:
             f = self.operand(env, t["fnop"], point)
             v = self.apply(f, args, site, env)
@@ -595,12 +602,12 @@ class Eval:
     # ------------------------------------------------------------------ #
     specialise_on = True
 
-    def inline_env(self, cb, args, depth):
+    def inline_env(self, cb, args, depth, path=()):
         """environment for evaluating `cb` on `args`. A `match` whose scrutinee has a KNOWN variant for
         these arguments (an aggregate built by the caller, Some(..)/None, the residual of `?`) can take
         only one arm: such switches are replaced by gotos (a pruned copy of the body), so that neither
         values nor effects nor guards of the other arms are attributed to this call."""
-        env = Env(cb, args, depth)
+        env = Env(cb, args, depth, path=path)
         if not self.specialise_on:
             return env
         sws = cb.discr_switches()
@@ -634,10 +641,10 @@ class Eval:
             if not new:
                 break
             fixed.update(new)
-            env = Env(cb.pruned_multi(fixed), args, depth)
+            env = Env(cb.pruned_multi(fixed), args, depth, path=path)
         return env
 
-    def inline_ret(self, cb, args, depth):
+    def inline_ret(self, cb, args, depth, path=()):
         """return value of `cb` on `args` (dict local -> term); an argument that is a merge of
         alternatives with different known variants is split (one evaluation per alternative)"""
         for i, a in sorted(args.items()):
@@ -648,13 +655,13 @@ class Eval:
                     for x in a[1]:
                         a2 = dict(args)
                         a2[i] = x
-                        r = self.inline_ret(cb, a2, depth)
+                        r = self.inline_ret(cb, a2, depth, path)
                         for y in (r[1] if r[0] == "phi" else (r,)):
                             if y not in alts:
                                 alts.append(y)
                     alts = [y for y in alts if y != ("unreachable",)] or alts
                     return alts[0] if len(alts) == 1 else ("phi", tuple(alts))
-        return self.ret_val(self.inline_env(cb, args, depth))
+        return self.ret_val(self.inline_env(cb, args, depth, path))
 
     def apply(self, f, args, site, env):
         """apply a callable term to already evaluated args"""
@@ -665,11 +672,11 @@ class Eval:
             a = {1: f}
             for i, x in enumerate(args):
                 a[2 + i] = x
-            return self.inline_ret(cb, a, env.depth + 1)
+            return self.inline_ret(cb, a, env.depth + 1, site_path(site))
         if f[0] == "fnref" and f[2] and f[2] in self.facts.bodies and f[2] not in self.opaque:
             cb = self.facts.bodies[f[2]]
             if env.depth < self.max_inline:
-                return self.inline_ret(cb, {i + 1: x for i, x in enumerate(args)}, env.depth + 1)
+                return self.inline_ret(cb, {i + 1: x for i, x in enumerate(args)}, env.depth + 1, site_path(site))
         return ("call", "apply", None, (f,) + tuple(args), site)
 
     presence_hook = None   # set by core: (ev, env, block) -> set of conditions holding at block
@@ -792,7 +799,7 @@ class Eval:
         key = fn.get("resolved_key") or fn.get("key")
         if key and key in self.facts.bodies and key not in self.opaque and env.depth < self.max_inline:
             cb = self.facts.bodies[key]
-            return self.inline_ret(cb, {i + 1: x for i, x in enumerate(args)}, env.depth + 1)
+            return self.inline_ret(cb, {i + 1: x for i, x in enumerate(args)}, env.depth + 1, site_path(site))
         # ---- iteration ----
         if cid == "std::iter::Iterator::next":
             return ("opt", ("elem", args[0]), frozenset([("has_next", args[0])]))
